@@ -122,6 +122,10 @@ func H16_teardown() {
 			}
 		}
 	}
+	secondConnect := false
+	if how == 3 {
+		secondConnect = vrtBool("second_connect")
+	}
 	// the endings, one connection after the other (either order)
 	ends := []*vrtConn{p, s}
 	if vrtBool("subscriber_ends_first") {
@@ -147,7 +151,11 @@ func H16_teardown() {
 			vrtQuiesce()
 			c.peerClose()
 		case 3:
-			c.peerSend([]byte{0x00, 0x00})
+			if secondConnect {
+				c.peerSend(specEncode(vrtConnectPkt([]byte("again"), true))) // a second CONNECT is a protocol violation, too
+			} else {
+				c.peerSend([]byte{0x00, 0x00})
+			}
 			vrtQuiesce()
 			c.peerClose()
 		case 5:
